@@ -65,6 +65,7 @@ func isConstLE(C int64) func(ssa.Value) bool {
 
 // intBoundedAt: h <= C whenever control reaches site.
 func intBoundedAt(c *Ctx, f *ssa.Function, site ssa.Instruction, h ssa.Value, C int64) (string, int) {
+	enterScan(f)
 	if isConstLE(C)(h) {
 		return "", 1
 	}
@@ -96,13 +97,14 @@ func isLenOf(l ssa.Value) func(ssa.Value) bool {
 		if !ok || calleeKey(call) != "builtin.len" || len(call.Call.Args) != 1 {
 			return false
 		}
-		a := call.Call.Args[0]
+		a := resolveLoad(call.Call.Args[0]) // (inside a local predicate: the variable read through its free variable)
 		return a == l || strip2(a) == strip2(l)
 	}
 }
 
 // sliceBoundedAt: len(v) <= C whenever control reaches site.
 func sliceBoundedAt(c *Ctx, f *ssa.Function, site ssa.Instruction, v ssa.Value, C int64) (string, int) {
+	enterScan(f)
 	v = strip2(v)
 	boundedSlice := func(x ssa.Value) bool {
 		s, ok := strip2(x).(*ssa.Slice)
@@ -143,6 +145,7 @@ var _ = token.ADD
 // are bounded outright; any other leaf X must be guarded by a comparison of
 // X - low with a constant, or of X with low + k.
 func diffBoundedAt(c *Ctx, f *ssa.Function, site ssa.Instruction, high, low ssa.Value, C int64) (string, int) {
+	enterScan(f)
 	isLowPlusK := func(v ssa.Value) bool {
 		if low == nil {
 			return isConstLE(C)(v)
